@@ -107,7 +107,7 @@ SUITES = {
                      ("km-cnt-rel", ["cnt_try_reserve__split", "cnt_reserve__split"])],
     },
     "C12": {
-        "quick": [("km", ["en_dispatch__s8_8g0", "en_occ_read__s8_8g0", "en_occ_get_mut__s8_8g0", "en_occ_insert__s8_4a", "en_occ_remove__s8_8g0",
+        "quick": [("km", ["en_dispatch__s8_8g0", "en_dispatch__s8m0_4a", "en_raw_or_insert__s8m0_4a", "en_occ_read__s8_8g0", "en_occ_get_mut__s8_8g0", "en_occ_insert__s8_4a", "en_occ_remove__s8_8g0",
                           "en_occ_replace_entry__s8_8g0", "en_occ_replace_key__s8_8g4", "en_occ_replace_with__s8_8g0", "en_occ_replace_with__s8_4one",
                           "en_vacant_insert__u4f", "en_vacant_insert__s8_4a", "en_vacant_insert__s4f_e", "en_vacant_insert__s8t_4a", "en_occ_insert__s8_8g4",
                           "en_raw_insert__u4f", "en_raw_or_insert__u4f", "en_raw_and_modify__s8_8g0", "en_raw_vacant_hashed__s8_4a", "en_raw_vacant_with_hasher__u4f",
@@ -130,7 +130,7 @@ SUITES = {
     },
     "C13": {
         "quick": [("km", ["se_insert__s8_4a", "se_insert__s8_4one", "se_concrete__ka_old", "se_concrete__ka_main", "se_remove__s8_8g0", "se_remove__s8m0_4a", "se_take__s8_4one", "se_take__s8m0_4a", "se_get__s8_8g4",
-                          "se_get_or_insert__u4f", "se_get_or_insert_with__s8_8g4", "se_retain__s8_8g0", "se_clear__s8_8g4", "se_clear__s8m0_4a", "se_extend1__s8_4a",
+                          "se_get_or_insert__u4f", "se_get_or_insert__s8m0_4a", "se_get_or_insert_with__s8_8g4", "se_retain__s8_8g0", "se_clear__s8_8g4", "se_clear__s8m0_4a", "se_extend1__s8_4a",
                           "se_iter__s8_8g4", "se_drain__s8_4a", "se_union__c_f", "se_union__a_e", "se_union__e_c", "se_union__f_c", "se_intersection__c_a", "se_intersection__a_c",
                           "se_difference__c_a", "se_difference__a_e", "se_symdiff__c_f", "se_ops__e_c", "se_preds__c_a"])],
         "thorough": [("km", ["se_*"])],
